@@ -32,6 +32,24 @@ where
     }
 }
 
+/// The symlink placed in the cache lives in a different directory than the
+/// caller, so a relative target has to be resolved against the current
+/// working directory before it is stored in the link.
+fn absolute_target(target: &Path) -> Result<PathBuf> {
+    if target.is_absolute() {
+        Ok(target.to_path_buf())
+    } else {
+        Ok(std::env::current_dir()
+            .with_context(|| {
+                format!(
+                    "Failed to resolve relative link target {}",
+                    target.display()
+                )
+            })?
+            .join(target))
+    }
+}
+
 fn create_symlink(sri: Integrity, cache: &PathBuf, target: &PathBuf) -> Result<Integrity> {
     let cpath = path::content_path(cache.as_ref(), &sri);
     DirBuilder::new()
@@ -80,7 +98,7 @@ impl ToLinker {
         let file = File::open(target)
             .with_context(|| format!("Failed to open reader to {}", target.display()))?;
         Ok(Self {
-            target: target.to_path_buf(),
+            target: absolute_target(target)?,
             cache: cache.to_path_buf(),
             fd: file,
             builder: IntegrityOpts::new().algorithm(algo),
@@ -155,7 +173,7 @@ impl AsyncToLinker {
             .await
             .with_context(|| format!("Failed to open reader to {}", target.display()))?;
         Ok(Self {
-            target: target.to_path_buf(),
+            target: absolute_target(target)?,
             cache: cache.to_path_buf(),
             fd: file,
             builder: IntegrityOpts::new().algorithm(algo),
